@@ -80,7 +80,12 @@ func (g *rtGen) tripDesc(r *Rng, k int, named bool) map[string]any {
 		f = r.Pick(ids[2:])
 	}
 	if f[0] == '%' {
-		d["tripId"] = bstr(fmt.Sprintf(f, (r.Intn(1000)*1000+k*7)%1000000))
+		// origin time: anywhere in 000000-599999 (sometimes beyond); the pool index keeps ids distinct
+		o := r.Intn(600000)
+		if r.P(1, 10) {
+			o = 600000 + r.Intn(400000)
+		}
+		d["tripId"] = bstr(fmt.Sprintf(f, o) + fmt.Sprintf("%d", k))
 	} else {
 		d["tripId"] = bstr(fmt.Sprintf(f, k))
 	}
